@@ -70,6 +70,10 @@ def decorate(rng, keylog, how):
         for l in list(lines):
             if rng.randrange(2):
                 lines.insert(rng.randrange(len(lines) + 1), l)
+    elif how == "doubled":
+        lines = [x for l in lines for x in (l, l)]
+    elif how == "repeated-in-front":
+        lines = list(reversed(lines)) + lines
     elif how == "uppercase":
         lines = [" ".join([l.split(" ")[0]] + [x.upper() for x in l.split(" ")[1:]]) for l in lines]
     elif how == "no-final-newline":
@@ -110,14 +114,19 @@ def main():
     n_model = 4 if ck.tier == "quick" else 30
     home = os.getcwd()
     other = tempfile.mkdtemp(prefix="verif_cwd_")
-    for i, case in enumerate(pool.cases(rng, table, hist, n, noise_share=0.1)):
+    def all_cases():
+        for i, case in enumerate(pool.cases(rng, table, hist, n, noise_share=0.1)):
+            yield case
+            if i % 4 == 0:      # every run sees a TLS 1.3 connection (four key-log lines per connection: order and repetition matter most there)
+                yield pool.build(rng, [pool.tls_conn(rng, table, hist, idx=1, code=rng.choice([0x1301, 0x1302, 0x1303]), ver="TLS13", nrec=3, reclen=50)], hist)
+    for i, case in enumerate(all_cases()):
         args = ["-a"] if i % 3 == 0 else []
         st, base = impl.run(case.capture, case.keylog, args)
         pk = [(p["ts"], p["frame"]) for p in case.packets]
         has_quic = any(c.kind == "quic" for c in case.conns)
         lines = [l for l in case.keylog.split("\n") if l]
         half = len(lines) // 2
-        variants = [("file " + how, case.capture, decorate(rng, case.keylog, how)) for how in ("crlf", "shuffled", "decorated", "duplicates", "uppercase", "no-final-newline")]
+        variants = [("file " + how, case.capture, decorate(rng, case.keylog, how)) for how in ("crlf", "shuffled", "decorated", "duplicates", "doubled", "repeated-in-front", "uppercase", "no-final-newline")]
         variants.append(("one DSB before the packets, no -s, other working directory", synth.pcapng(pk, dsbs_before=[case.keylog]), None))
         variants.append(("two DSBs before the packets, no -s", synth.pcapng(pk, dsbs_before=["\n".join(lines[:half]) + "\n", "\n".join(lines[half:]) + "\n"]), None))
         variants.append(("file (half) + DSB (other half, CRLF)", synth.pcapng(pk, dsbs_before=["\r\n".join(lines[half:]) + "\r\n"]), "\n".join(lines[:half]) + "\n"))
